@@ -191,6 +191,8 @@ func c15class(msg string) string {
 		return "index-out-of-range"
 	case strings.Contains(msg, "slice bounds"):
 		return "slice-bounds"
+	case strings.Contains(msg, "invalid coins"):
+		return "invalid-coins"
 	case strings.Contains(msg, "reflect.Value.Type on zero Value"):
 		return "nil-bigint-in-abi-pack"
 	case strings.Contains(msg, "key is nil"):
@@ -1091,8 +1093,22 @@ func TestC15(t *testing.T) {
 	r := NewRec(t, "C15")
 	defer r.Close()
 	w := newC15World(t)
+	var gw *c15gWorld
+	runGv := func(op string) {
+		if gw == nil {
+			gw = newC15gWorld(t)
+		}
+		if line, out := gw.apply(r, strings.TrimPrefix(op, "gv ")); line != "" {
+			r.Op("gv "+line, out)
+			r.Nontrivial("gv " + line)
+		}
+	}
 	run := func(h []string) {
 		for _, op := range h {
+			if strings.HasPrefix(op, "gv ") {
+				runGv(op)
+				continue
+			}
 			op = w.resolveAddrs(r, op)
 			line, out := w.apply(r, op)
 			if line == "" {
@@ -1157,6 +1173,15 @@ func TestC15(t *testing.T) {
 	}
 	for i := 0; i < nb; i++ {
 		runBB(c20GenHistory(r))
+	}
+	// the gov module's own EndBlocker paths, staking slash / EndBlocker, through the bank adapter (harness/c15_gov_test.go)
+	ng := 160
+	if r.Tier == "thorough" {
+		ng = 1200
+	}
+	runGv("gv reset")
+	for i := 0; i < ng; i++ {
+		c15gRunHistory(r, gw, func(op string) { runGv("gv " + op) })
 	}
 }
 
